@@ -5,6 +5,8 @@ use noodles_bgzf as bgzf;
 pub fn run(id: &str, tier: &str, seed: u64) -> Result<String, String> {
     match id {
         "bgzf-deflate-bound" => bgzf_deflate_bound(tier, seed),
+        "cram-codecs-roundtrip" => cram_codecs_roundtrip(tier, seed, None),
+        n if n.starts_with("cram-codec-") => cram_codecs_roundtrip(tier, seed, Some(&n[11..])),
         _ => Err(format!("unknown bounded check {id}")),
     }
 }
@@ -48,3 +50,59 @@ fn bgzf_deflate_bound(_tier: &str, seed: u64) -> Result<String, String> {
     }
     Ok(format!("\"cases\":{cases}"))
 }
+
+/// BOUNDED-NATIVE stand-in for C08 (block codecs are out of reach of Verus/Kani here): decode(encode(x)) == x on the real
+/// functions for small alphabets/lengths (exhaustive up to a bound) plus seeded pseudo-random inputs.  Never counted as proved.
+/// ALL failures are collected and de-duplicated by (codec variant, kind of failure), keeping the shortest input of each kind,
+/// so that every distinct kind is reported (and can be matched against known_findings.jsonl one by one).
+fn cram_codecs_roundtrip(tier: &str, seed: u64, only: Option<&str>) -> Result<String, String> {
+    use noodles_cram::codecs::{rans_4x8, rans_nx16, aac};
+    use std::collections::BTreeMap;
+    let mut cases = 0u64;
+    let mut inputs: Vec<Vec<u8>> = Vec::new();
+    for len in 0..=5usize { let n = 3usize.pow(len as u32); for mut k in 0..n { let mut v = Vec::with_capacity(len); for _ in 0..len { v.push((k % 3) as u8); k /= 3; } inputs.push(v); } }
+    for &(lo, hi, n) in &[(1u8, 9u8, 40usize), (0, 3, 200), (30, 41, 600), (0, 255, 300), (65, 68, 5000), (1, 1, 17), (200, 255, 1000), (0, 254, 400)] {
+        let r = prng(seed ^ ((lo as u64) << 8 | hi as u64), n);
+        inputs.push(r.iter().map(|b| (lo as u16 + (*b as u16) % (hi as u16 - lo as u16 + 1)) as u8).collect());
+    }
+    inputs.push(vec![1, 5, 9, 1, 5, 9, 9, 9, 5, 1]);
+    inputs.push(b"noodles".to_vec());
+    if tier == "thorough" { for i in 0..200u64 { let n = 1 + (i as usize * 37) % 3000; let r = prng(seed.wrapping_add(i), n); let m = 1 + (i % 40) as u8; inputs.push(r.iter().map(|b| b % m).collect()); } }
+    inputs.sort_by_key(|v| v.len());
+    let want = |name: &str| only.map_or(true, |o| o == name);
+    let mut fails: BTreeMap<(String, String), String> = BTreeMap::new();
+    let mut note = |variant: &str, kind: String, x: &[u8]| {
+        fails.entry((variant.to_string(), kind.clone())).or_insert_with(|| format!("{variant}: {kind}; shortest failing input: {} bytes {:?}{}", x.len(), head(x), if x.len() > 24 { "..." } else { "" }));
+    };
+    std::panic::set_hook(Box::new(|_| {}));
+    for x in &inputs {
+        let n = x.len();
+        let mut run = |variant: &str, enc: &dyn Fn() -> std::io::Result<Vec<u8>>, dec: &dyn Fn(&[u8]) -> std::io::Result<Vec<u8>>| {
+            if !want(variant) { return; }
+            cases += 1;
+            let e = match std::panic::catch_unwind(std::panic::AssertUnwindSafe(|| enc())) {
+                Ok(Ok(e)) => e,
+                Ok(Err(e)) => { note(variant, format!("encode returns Err('{e}')"), x); return; }
+                Err(_) => { note(variant, "encode PANICS".to_string(), x); return; }
+            };
+            match std::panic::catch_unwind(std::panic::AssertUnwindSafe(|| dec(&e))) {
+                Ok(Ok(y)) if &y == x => {}
+                Ok(Ok(_)) => note(variant, "decode(encode(x)) != x".to_string(), x),
+                Ok(Err(e)) => note(variant, format!("decode of its own encoding returns Err('{e}')"), x),
+                Err(_) => note(variant, "decode of its own encoding PANICS".to_string(), x),
+            }
+        };
+        run("rans4x8-o0", &|| rans_4x8::verif_hooks::encode(rans_4x8::Order::Zero, x), &|e| rans_4x8::verif_hooks::decode(e));
+        run("rans4x8-o1", &|| rans_4x8::verif_hooks::encode(rans_4x8::Order::One, x), &|e| rans_4x8::verif_hooks::decode(e));
+        for (nm, fl) in [("ransnx16-o0", rans_nx16::Flags::empty()), ("ransnx16-o1", rans_nx16::Flags::ORDER), ("ransnx16-n32", rans_nx16::Flags::N32), ("ransnx16-rle", rans_nx16::Flags::RLE), ("ransnx16-pack", rans_nx16::Flags::PACK), ("ransnx16-cat", rans_nx16::Flags::CAT), ("ransnx16-stripe", rans_nx16::Flags::STRIPE)] {
+            run(nm, &|| rans_nx16::verif_hooks::encode(fl, x), &|e| rans_nx16::verif_hooks::decode(e, n));
+        }
+        for (nm, fl) in [("aac-o0", aac::Flags::empty()), ("aac-o1", aac::Flags::ORDER), ("aac-rle", aac::Flags::RLE), ("aac-pack", aac::Flags::PACK)] {
+            run(nm, &|| aac::verif_hooks::encode(fl, x), &|e| aac::verif_hooks::decode(e, n));
+        }
+    }
+    let _ = std::panic::take_hook();
+    if fails.is_empty() { Ok(format!("\"cases\":{cases}")) }
+    else { Err(format!("FAILURES\n{}", fails.values().cloned().collect::<Vec<_>>().join("\n"))) }
+}
+fn head(x: &[u8]) -> Vec<u8> { x.iter().take(24).copied().collect() }
